@@ -59,3 +59,75 @@ K("rg.apply_orientation_empty", ["C06", "C15"], "jxl-render", RG, RGM, "apply_or
   ["Region::apply_orientation"],
   "requires an EMPTY rectangle (width or height 0) positioned inside the displayed image; ensures the result is empty "
   "(the image of the empty set is empty)")
+
+for _op in ["downsample", "pad", "upsample", "container_aligned"]:
+    K("rg.monotone_" + _op, ["C06"], "jxl-render", RG, RGM, "monotone_" + _op, "complete", ["Region::" + _op],
+      "nested extents stay nested under %s (regions of a frame render: |origin|, size <= 2^30+2^14; factor <= 12 / pad <= 48 / g <= 1024; "
+      "upsample: operands <= 2^18 so that nothing is shifted out). Together: every padding rule of util.rs, being a composition of these "
+      "operations with header-only parameters, is monotone in the request" % _op)
+
+# ---- util.rs: request -> frame coordinates, padding rules ----------------------------------------------------------
+_RU_HDR = ("headers built with BundleDefault::default_with_context + overwritten pub fields (never parsed); `Frame` accessors "
+           "image_header()/header() are stubbed to return the harness-owned headers (Frame has no constructor but parse). ")
+K("ru.image_region_to_frame", ["C06", "C05", "C01"], "jxl-render", RU, RUM, "image_region_to_frame_contract", "complete",
+  ["image_region_to_frame", "Region::translate", "Region::intersection", "Region::downsample"],
+  _RU_HDR + "all frame types, |x0|,|y0| <= 2^29+9344, frame size <= 2^30, lf_level 0..4, stored image <= 2^30; "
+  "apply_orientation_to_image_region abstracted as a pure function returning some non-empty region S inside the stored image "
+  "(discharged by rg.apply_orientation_o1..8 + ru.oriented_glue). Ensures: q in result(full res) <=> q in frame and q+(x0,y0) in S "
+  "(reference-only frame: whole frame); LF result = least region covering q>>3*lf_level, empty if nothing requested; "
+  "S = whole image and frame on the canvas => whole frame. Monotonicity in the request is a corollary (exact preimage, "
+  "then least cover of a non-empty rectangle, empty stays empty).")
+K("ru.oriented_glue", ["C06", "C15"], "jxl-render", RU, RUM, "oriented_glue", "complete",
+  ["apply_orientation_to_image_region"], "== Region::apply_orientation for every orientation, size <= i32::MAX, rectangle inside the displayed image")
+for _o in range(1, 9):
+    K("ru.image_region_to_frame_o%d" % _o, ["C06", "C15", "C01"], "jxl-render", RU, RUM, "image_region_to_frame_o%d" % _o, "complete",
+      ["image_region_to_frame", "Region::apply_orientation", "Region::translate", "Region::intersection"],
+      _RU_HDR + "monolithic form for orientation %d (nothing abstracted): q in image_region_to_frame(R, ignore_lf_level) <=> q in the frame and the "
+      "displayed position of image sample q+(x0,y0) lies in R, for every non-empty R inside the displayed image; full image |-> full frame" % _o,
+      tier="thorough", timeout=900)
+K("ru.pad_lf_region", ["C06", "C01"], "jxl-render", RU, RUM, "pad_lf_region_contract", "complete", ["pad_lf_region"],
+  "lf_level 0..4, any region within +-(2^30+2^13): contains the request; identity for lf_level 0; LF frames padded equally (> 0) on all four "
+  "sides; monotone. The amount (4*lf_level+32) has no counterpart in the standard and is not pinned.")
+_RU_UP = ("region within +-(2^30+2^13); contains the request; every channel with cumulative shift f gets the request at 1/2^f resolution grown by the "
+          "upsampling kernel support (5x5 window: 2 source samples, 3 when two passes are needed, f > 3); nothing upsampled => identity; monotone "
+          "(two calls on nested requests). Larger-than-needed padding verifies. ")
+for _n, _cfg in [("c0", "upsampling 1, no extra channel"), ("c1", "upsampling 2"), ("c2", "upsampling 4"), ("c3", "upsampling 8"),
+                 ("ec_a", "upsampling 2, extra channels (8x, dim_shift 3) and (2x, dim_shift 1): cumulative 6 and 2"),
+                 ("ec_b", "upsampling 1, one extra channel not upsampled"), ("ec_c", "upsampling 4, extra channels (4x,0) and (1x,3)"),
+                 ("ec_d", "upsampling 1, extra channel (2x, dim_shift 3): cumulative 4")]:
+    K("ru.pad_upsampling_" + _n, ["C06", "C01"], "jxl-render", RU, RUM, "pad_upsampling_" + _n, "complete", ["pad_upsampling"],
+      _cfg + "; " + _RU_UP)
+_RU_PC = ("all filter settings symbolic (EPF off/1/2/3 iterations, Gabor on/off, do_ycbcr); region within +-(2^30+2^13). Ensures result >= request at "
+          "colour resolution grown on every side by upsampling(2 if upsampled) + EPF(2/3/6: kernel reach of steps 1 / 1-2 / 0-2) + Gabor(1) + "
+          "chroma upsampling(1); whole 8x8 blocks when EPF is on; even-aligned when do_ycbcr; identity when nothing is enabled. "
+          "NOT detected: an amount larger than required (the code pads 5 for 2 EPF iterations where 3 suffice).")
+for _n, _cfg, _tier in [("c0", "upsampling 1", "quick"), ("c1", "upsampling 2", "quick"), ("c2", "upsampling 4", "quick"), ("c3", "upsampling 8", "quick"),
+                        ("ec_a", "upsampling 2 + extra channels with cumulative shift 6 and 2", "thorough"),
+                        ("ec_c", "upsampling 4 + extra channels (4x,0),(1x,3)", "thorough")]:
+    K("ru.pad_color_region_" + _n, ["C06", "C01"], "jxl-render", RU, RUM, "pad_color_region_" + _n, "complete",
+      ["pad_color_region", "pad_upsampling", "Region::container_aligned"], _cfg + "; " + _RU_PC, tier=_tier, timeout=600)
+for _n, _cfg in [("a", "no upsampling, no filter"), ("b", "upsampling 2, EPF 3 iterations, Gabor"), ("c", "upsampling 8, EPF 1, Gabor, YCbCr"),
+                 ("d", "EPF 2, YCbCr"), ("e", "upsampling 4 + extra channels, EPF 2, Gabor")]:
+    K("ru.pad_color_region_monotone_" + _n, ["C06"], "jxl-render", RU, RUM, "pad_color_region_monotone_" + _n, "complete",
+      ["pad_color_region"], "R1 inside R2 => pad_color_region(R1) inside pad_color_region(R2); configuration: " + _cfg +
+      " (one complete header configuration per harness; for the other configurations monotonicity rests on rg.ops_monotone + the fact that "
+      "the function is a composition of those operations with header-only parameters)", tier="thorough", timeout=600)
+K("ru.mirror", ["C06", "C01"], "jxl-render", RU, RUM, "mirror_contract", "complete", ["mirror"],
+  "len 1..2^30+2^13, offset in [-len, 2len): terminates, no overflow, result = reflection about the edge (edge sample not repeated), inside 0..len")
+
+# ---- jxl-oxide/fb.rs: orientation of the output buffers, float -> integer samples -----------------------------------
+CANARIES["jxl-oxide"] = dict(anchor=FB, module=FBM, harness="canary", kind="complete", fns=[], timeout=120)
+K("fb.to_original_coord", ["C15", "C01"], "jxl-oxide", FB, FBM, "to_original_coord_contract", "complete",
+  ["ImageStream::to_original_coord"],
+  "for all displayed sizes (u32), orientations 1..8, displayed positions inside: the stored position returned lies inside the stored "
+  "image and spec_orientation(o, W, H, it) == (x, y), i.e. the stream map is the inverse of the standard's orientation map; no overflow")
+K("fb.copy_from_f32_u8", ["C15", "C01"], "jxl-oxide", FB, FBM, "copy_from_f32_u8_contract", "complete",
+  ["<u8 as Sealed>::copy_from_f32"],
+  "all 2^32 f32 bit patterns: NaN -> 0; 255*v <= 0 -> 0; 255*v >= 255 -> 255 (incl. inf); otherwise |result - 255*v| <= 0.5 + 2^-16 "
+  "(255*v exact in f64)")
+K("fb.copy_from_f32_u16", ["C15", "C01"], "jxl-oxide", FB, FBM, "copy_from_f32_u16_contract", "complete",
+  ["<u16 as Sealed>::copy_from_f32"],
+  "all f32 bit patterns: NaN -> 0; clamped to [0, 65535]; otherwise |result - 65535*v| <= 0.5 + 2^-8")
+K("fb.copy_from_f32_monotone", ["C15"], "jxl-oxide", FB, FBM, "copy_from_f32_monotone", "complete",
+  ["<u8 as Sealed>::copy_from_f32", "<u16 as Sealed>::copy_from_f32", "<f32 as Sealed>::copy_from_f32"],
+  "a <= b (non-NaN) => u8(a) <= u8(b) and u16(a) <= u16(b), all pairs of f32; f32 -> f32 is the bit identity")
